@@ -110,6 +110,7 @@ static unsigned long parse_flags(char **tok, int n) {
 }
 
 #include "gdh_meta.c"
+#include "fault.c"
 
 static void alarm_handler(int sig) {
   (void)sig;
@@ -202,6 +203,8 @@ int main(int argc, char **argv) {
       }
       if (n >= 0) free(nl);
       putchar('\n'); fflush(stdout);
+    } else if (fault_op(nt, tok)) {
+      /* handled in fault.c */
     } else if (!strcmp(op, "open")) {
       if (D) gd_discard(D);
       D = gd_open(workdir, parse_flags(tok + 1, nt - 1));
